@@ -136,6 +136,70 @@ def enum_order(n):
                             % (n, hi, counts[hi], lo, counts[lo], total))
         return res
     res["per_value"] = cs.pop()
+    # an entropy source that hands back MORE bytes than asked for (a hash
+    # block, say): whatever the sampler does with the surplus, a uniform reply
+    # must still give a uniform value.  (A sampler that refuses such a reply
+    # with an exception is not judged.)
+    if size == 1 and n <= 128:
+        counts2 = {}
+        refused = False
+        for w in range(256 ** 2):
+            reply = w.to_bytes(2, "big")
+            calls = [0]
+
+            def src(nb, reply=reply, calls=calls):
+                calls[0] += 1
+                if calls[0] > 1:
+                    raise world.NeedMore()
+                return reply
+            try:
+                v = lu.randrange(n, src)
+            except world.NeedMore:
+                continue
+            except Exception:
+                refused = True
+                break
+            if not 1 <= v <= n - 1:
+                res["violation"] = ("overlong-range", "randrange(%d) returned "
+                                    "%r for the over-long reply %s" % (
+                                        n, v, reply.hex()))
+                return res
+            counts2[v] = counts2.get(v, 0) + 1
+        res["leaves"] += 256 ** 2
+        if not refused and counts2:
+            if len(counts2) != n - 1 or len(set(counts2.values())) != 1:
+                lo = min(range(1, n), key=lambda v: counts2.get(v, 0))
+                hi = max(counts2, key=counts2.get)
+                res["violation"] = (
+                    "overlong-biased", "order %d, entropy source replying "
+                    "with 2 bytes to a 1-byte request: value %d from %d "
+                    "replies, value %d from %d" % (
+                        n, hi, counts2[hi], lo, counts2.get(lo, 0)))
+                return res
+    # a block that is rejected when it comes first must be rejected every
+    # time: served for ever, the sampler must keep asking and never return
+    for rej in rejected_scripts[:2]:
+        served = [0]
+
+        def src(nb, rej=rej, served=served):
+            served[0] += 1
+            if served[0] > 2500:
+                raise world.NeedMore()
+            return rej
+        try:
+            v = lu.randrange(n, src)
+            res["violation"] = (
+                "rejected-then-returned", "order %d: the block %s is rejected "
+                "as a first request, yet after %d identical blocks the "
+                "sampler returned %r" % (n, rej.hex(), served[0], v))
+            return res
+        except world.NeedMore:
+            pass
+        except Exception as e:
+            res["violation"] = ("raises-" + type(e).__name__,
+                                "randrange(%d) raised %r on a repeating "
+                                "rejected block" % (n, e))
+            return res
     # memorylessness: behaviour after a rejected request == from scratch
     import random
     r = random.Random(n)
